@@ -3,7 +3,7 @@
    and every rule of the tree exactly once and in document order, for every tree.
    The reader -> arena half runs through the transliterated builder (Arena.v), whose
    conservation is decided on every run from the implementation's observations (atoms). *)
-From IweV Require Import Check_Norm NormFacts.
+From IweV Require Import Check_Norm NormFacts SectionsSpec SectionsFacts.
 Local Open Scope string_scope.
 Local Open Scope list_scope.
 
@@ -21,3 +21,43 @@ Example C01_project_conserves_example :
                                        T None (NRaw None "c") []])
   = [CI [Str "a"]; CI [Str "i"]; CI [Str "p"]; CC None "c"].
 Proof. reflexivity. Qed.
+
+
+(* From the blocks of a note to its tree: [spec_tree key bs] is the tree the blocks determine
+   (SectionsSpec.v; compared with the transliterated builder and through it with the
+   implementation on every run).  For every list of blocks of any length and nesting in which no
+   list item starts with a code block, quote, table or rule, or starts with a list and holds
+   further blocks, the tree says what the blocks say: every block's content (its line of
+   inlines, its code body, its rule, its table cells; an item's lead text as the item's line)
+   occurs exactly once and in document order. *)
+Theorem C01_tree_conserves :
+  forall (key : string) (bs : list dblock),
+    Forall (fun b => plain_items b = true) bs ->
+    tcontent (key_parent key) (spec_tree key bs) = bscontent (key_parent key) bs.
+Proof. exact spec_conserves. Qed.
+Check C01_tree_conserves :
+  forall (key : string) (bs : list dblock),
+    Forall (fun b => plain_items b = true) bs ->
+    tcontent (key_parent key) (spec_tree key bs) = bscontent (key_parent key) bs.
+Print Assumptions C01_tree_conserves.
+
+(* ... and so do the blocks written for it. *)
+Theorem C01_written_conserves :
+  forall (key : string) (bs : list dblock),
+    Forall (fun b => plain_items b = true) bs ->
+    flat_map gcontent (project (key_parent key) (spec_tree key bs)) = bscontent (key_parent key) bs.
+Proof. exact spec_written_conserves. Qed.
+Check C01_written_conserves :
+  forall (key : string) (bs : list dblock),
+    Forall (fun b => plain_items b = true) bs ->
+    flat_map gcontent (project (key_parent key) (spec_tree key bs)) = bscontent (key_parent key) bs.
+Print Assumptions C01_written_conserves.
+
+Example C01_written_example :
+  let bs := [DHeader (0,1) 2 [Str "t"]; DPara (2,3) [Str "p"];
+             DBList [[DHeader (4,5) 1 [Str "i"]; DCode (5,7) None "c"]; []; [DOList [[DPara (8,9) [Str "x"]]]]];
+             DQuote (10,12) [DRule (10,11); DPara (11,12) [Str "q"]]] in
+  Forall (fun b => plain_items b = true) bs /\
+  flat_map gcontent (project "" (spec_tree "k" bs)) =
+  [CI [Str "t"]; CI [Str "p"]; CI [Str "i"]; CC None "c"; CI [Str "x"]; CR; CI [Str "q"]].
+Proof. cbn zeta. split; [repeat constructor | reflexivity]. Qed.
